@@ -9,9 +9,11 @@ import (
 	"github.com/pbenner/autodiff/algorithm/adam"
 	"github.com/pbenner/autodiff/algorithm/bfgs"
 	"github.com/pbenner/autodiff/algorithm/cholesky"
+	"github.com/pbenner/autodiff/algorithm/determinant"
 	"github.com/pbenner/autodiff/algorithm/newton"
 	"github.com/pbenner/autodiff/algorithm/rprop"
 	"verif/sim/core"
+	"verif/sim/ticks"
 )
 
 /* optimizers without an iteration cap --------------------------------------------------------
@@ -154,5 +156,29 @@ func ProbeInSituShape(c *core.Ctx) {
 	c.Logf("cholesky.Run(2x2, InSitu left from a 3x3 call) returned a %dx%d factor", r, k)
 	if r != 2 || k != 2 {
 		c.Fail("loud-failure", "cholesky|InSitu-of-another-shape|result-of-the-wrong-shape", "cholesky.Run on a 2x2 matrix with the *InSitu left from a call on a 3x3 matrix returned a %dx%d factor without error", r, k)
+	}
+}
+
+/* open finding C20-F2: cofactor expansion -------------------------------------------------- */
+
+// ProbeDeterminantCost: determinant.Run without PositiveDefinite expands along
+// the first row recursively (determinantNaive): n! / 2 minors.  Polynomial
+// budget for the probe: 10 n^4 recursive calls.
+func ProbeDeterminantCost(c *core.Ctx) {
+	n := 9
+	a := ad.NullDenseFloat64Matrix(n, n)
+	for i := 0; i < n; i++ {
+		for j := 0; j < n; j++ {
+			a.At(i, j).SetFloat64(float64((i*j)%3) + 1)
+		}
+		a.At(i, i).SetFloat64(float64(n))
+	}
+	budget := 10 * n * n * n * n
+	over, counts := ticks.Guard(map[string]int{"determinant.minor": budget}, 100000000, func() {
+		core.Try(func() { determinant.Run(a) })
+	})
+	c.Logf("determinant.Run on a %dx%d matrix: %v recursive calls (budget %d)", n, n, counts, budget)
+	if over != nil {
+		c.Fail("step-clock", "determinant|determinant.minor|budget-exceeded", "determinant.Run (default options) on a %dx%d matrix was still expanding minors after %d recursive calls: cofactor expansion needs about n!/2 = %d of them", n, n, over.Ticks, 181440)
 	}
 }
